@@ -1,5 +1,6 @@
 import Proofs.SqlFixedPoint
 import Proofs.SqlReloadRoutes
+import Proofs.SqlLinks
 import Proofs.SqlParserTotal
 
 /-!
@@ -261,15 +262,68 @@ theorem reloaded_class_idem (u : UC) (c : ClassM) (h : ∀ a ∈ c.attrs, AsciiT
     intro r _
     exact canonVals_idem u c.attrs r h
 
-/- Full statement, NOT proved here:
-     theorem reload_same (u m) (hw : m.WF u) (hm : m.Closed u) (hk : KeysResolve m links) … :
-       the metamodel built from the text of any route has the classes / identifiers / associations / rows of
-       `m.reloaded` (proved above) AND the same links as `m`
-   The link part is the recomputation of links from key values in `populate_connections`; it is C03's `build_links`
-   (Props/C03.lean) and is not repeated here.  With it, the model-level fixed point
-   `printDb (reload (reload m)) = printDb (reload m)` follows from `reload_same_partial` and `reloaded_class_idem`
-   (referential values are then read through the links).  Both are validated on every run by the property predicate
-   of harness/prop_C01.py (dump(original) = dump(reloaded) incl. link pairs in both directions, text₂ = text₃, every route). -/
+/-! ### links -/
+
+/-- the links an in-memory model holds (per association: pairs of source row index and target row index, each within
+    its class) are exactly the links its key values denote under the loader's rule: every key pair non-null (`None`;
+    UNIQUE_ID 0; STRING '') and equal.  A model built with `relate` meets it when the referred instances carry non-null
+    key tuples that are unique in their class (a related referrer then READS the keys of its target, an unrelated one
+    reads `None`); a model with hand-set contradictory referential values does not. -/
+def KeysResolve (u : UC) (m : MM) (L : AssocM → List (Nat × Nat)) : Prop :=
+  ∀ a ∈ m.assocs, ∀ p, p ∈ L a ↔ p ∈ linksOfAssoc u m a
+
+/-- LINK CLAUSE: the links of the reloaded metamodel (spec join of PyxModel/Sql/Links.lean, which C03 proves the batch
+    loader computes) are the links of the original, association by association and row by row.  `UnsetSafe`: an unset
+    key cell of type INTEGER / REAL / BOOLEAN — written as 0 / 0.000000 / 0, which the loader does not treat as null —
+    meets no equal value on the other side; automatic for UNIQUE_ID and STRING keys. -/
+theorem reload_links (u : UC) (m : MM) (hm : m.Closed u) (hsafe : UnsetSafe u m) (A : List AssocM) (a : AssocM)
+    (ha : a ∈ m.assocs) : linksOfAssoc u (m.reloaded u A) a = linksOfAssoc u m a :=
+  linksOfAssoc_reloaded u m hm hsafe A a ha
+
+/-- unset key cells of the types that have a null value never need the side condition -/
+theorem unset_nullable_safe (t : Option Gen.Persist.Ty) (h : t = some .UNIQUE_ID ∨ t = some .STRING ∨ t = none)
+    (c : Option Gen.Persist.Ty × Option Val) :
+    cellMatch (canonCell (t, none)) c = false ∧ cellMatch c (canonCell (t, none)) = false :=
+  ⟨cellMatch_canon_unset_left t h c, cellMatch_canon_unset_right t h c⟩
+
+/-- RELOAD, complete at model level: what `serialize_database` writes for a well-formed, closed metamodel whose links
+    are the ones its keys denote is accepted, builds, the built metamodel is `m.reloaded` (classes, attribute types,
+    identifiers, rows, associations — `reload_same_partial`) and its keys denote the SAME links -/
+theorem reload_same (u : UC) (m : MM) (hw : m.WF u) (hm : m.Closed u) (hsafe : UnsetSafe u m)
+    (L : AssocM → List (Nat × Nat)) (hL : KeysResolve u m L) (text : Text)
+    (hp : printItems u (m.serializeDatabase u) = some text) :
+    ∃ stmts bs, classify u text = .accepted stmts ∧ build u stmts = .ok bs ∧
+      bs.toMM u = m.reloaded u m.assocsByIdKind ∧ KeysResolve u (bs.toMM u) L := by
+  obtain ⟨stmts, bs, hc, hb, he⟩ := reload_serializeDatabase u m hw hm text hp
+  refine ⟨stmts, bs, hc, hb, he, ?_⟩
+  rw [he]
+  intro a ha p
+  have ham : a ∈ m.assocs := (mem_sortBy _ _ _).mp ha
+  rw [linksOfAssoc_reloaded u m hm hsafe _ a ham]
+  exact hL a ham p
+
+/-- … and `persist_database` -/
+theorem reload_same_persist (u : UC) (m : MM) (hw : m.WF u) (hm : m.Closed u) (hsafe : UnsetSafe u m)
+    (L : AssocM → List (Nat × Nat)) (hL : KeysResolve u m L) (text : Text)
+    (hp : printItems u (m.persistDatabase u) = some text) :
+    ∃ stmts bs, classify u text = .accepted stmts ∧ build u stmts = .ok bs ∧
+      bs.toMM u = m.reloaded u m.assocsById ∧ KeysResolve u (bs.toMM u) L := by
+  obtain ⟨stmts, bs, hc, hb, he⟩ := reload_persistDatabase u m hw hm text hp
+  refine ⟨stmts, bs, hc, hb, he, ?_⟩
+  rw [he]
+  intro a ha p
+  have ham : a ∈ m.assocs := (mem_sortBy _ _ _).mp ha
+  rw [linksOfAssoc_reloaded u m hm hsafe _ a ham]
+  exact hL a ham p
+
+/- What remains outside these theorems: that the links `populate_connections` actually creates on the statements of the
+   text are `linksOf` of the built metamodel is C03's `build_links` (stated on builder-C's loader model,
+   PyxModel/Load.lean, whose nested join has the same matching rule); the two models are tied to each other and to the
+   implementation by correspondence: the driver prints `linksOf` of the generated metamodel and of the metamodel it
+   builds from the written text, the harness compares both with the links of the real in-memory model and of the
+   really reloaded model (harness/prop_C01.py).  The model-level fixed point
+   `printDb (reload (reload m)) = printDb (reload m)` follows from `reload_same` and `reloaded_class_idem` once referential
+   values are read through the links; it is validated by D (text₂ = text₃ on every route). -/
 
 /-! non-vacuity: concrete instances -/
 
@@ -322,5 +376,28 @@ example : mEx.Closed UC.ascii := by
   intro a ha
   simp only [mEx, List.mem_singleton] at ha; subst ha
   exact ⟨⟨_, List.mem_singleton.mpr rfl, rfl⟩, rfl, _, List.mem_singleton.mpr rfl, rfl, by decide⟩
+
+/-- a root that is its own parent and a child of it: the keys denote the links (0,0) and (1,0); the unset parent of a
+    third row denotes none; all key columns are UNIQUE_ID, so `UnsetSafe` holds -/
+def mTree : MM :=
+  ⟨[⟨"N".toList, [("Id".toList, "unique_id".toList), ("Parent".toList, "UNIQUE_ID".toList)], [],
+     [[some (.id 1), some (.id 1)], [some (.id 2), some (.id 1)], [some (.id 3), none]]⟩],
+   [⟨"R1".toList, ⟨true, true, "N".toList, ["Parent".toList], "child".toList⟩,
+     ⟨false, true, "N".toList, ["Id".toList], "parent".toList⟩⟩]⟩
+
+example : linksOf UC.ascii mTree = [(mTree.assocs.head!, [(0, 0), (1, 0)])] := by decide
+
+example : UnsetSafe UC.ascii mTree := by
+  apply unsetSafe_of_nullable_keys
+  intro a ha sc tc hsc htc kk hkk
+  simp only [mTree, List.mem_singleton] at ha; subst ha
+  have e1 : MM.findClass UC.ascii mTree "N".toList = some mTree.classes.head! := by decide
+  rw [show (AssocM.mk "R1".toList ⟨true, true, "N".toList, ["Parent".toList], "child".toList⟩
+      ⟨false, true, "N".toList, ["Id".toList], "parent".toList⟩).src.kind = "N".toList from rfl, e1] at hsc
+  rw [show (AssocM.mk "R1".toList ⟨true, true, "N".toList, ["Parent".toList], "child".toList⟩
+      ⟨false, true, "N".toList, ["Id".toList], "parent".toList⟩).tgt.kind = "N".toList from rfl, e1] at htc
+  simp only [Option.some.injEq] at hsc htc; subst hsc; subst htc
+  simp only [List.zip, List.zipWith, List.mem_singleton] at hkk; subst hkk
+  exact ⟨Or.inl (by decide), Or.inl (by decide)⟩
 
 end PyxProps.C01
